@@ -65,10 +65,20 @@ impl AsyncWrite for Tee {
     }
 }
 
-async fn settle(activity: &AtomicU64) {
+/// Bound on the yields of one drain; reaching it is reported as a hang of the case.
+const MAX_SETTLE_YIELDS: usize = 200_000;
+
+/// Yields until 64 consecutive rounds without activity (single threaded runtime, in-memory pipes,
+/// manual clock: independent of wall-clock time and machine load). Returns false when the bound hit.
+async fn settle(activity: &AtomicU64) -> bool {
     let mut idle = 0;
+    let mut n = 0usize;
     let mut last = activity.load(Ordering::SeqCst);
     while idle < 64 {
+        n += 1;
+        if n > MAX_SETTLE_YIELDS {
+            return false;
+        }
         tokio::task::yield_now().await;
         let now = activity.load(Ordering::SeqCst);
         if now != last {
@@ -78,6 +88,7 @@ async fn settle(activity: &AtomicU64) {
             idle += 1;
         }
     }
+    true
 }
 
 fn i128_of(v: &Value) -> i128 {
@@ -146,6 +157,10 @@ async fn app(
 }
 
 async fn run_case(c: &Value) -> Value {
+    if c["test_hang"].as_bool() == Some(true) {
+        // self-test of the watchdog only
+        std::future::pending::<()>().await;
+    }
     let flood = c["mode"].as_str() == Some("flood");
     let clock = ctx::ManualClock::new();
     let t0 = clock.now();
@@ -193,6 +208,8 @@ async fn run_case(c: &Value) -> Value {
     };
     let ev2 = events.clone();
     let st2 = status.clone();
+    let capped = Arc::new(AtomicU64::new(0));
+    let capped2 = capped.clone();
     let _: Result<(), ctx::Canceled> = scope::run!(ctx, |ctx, s| async move {
         if let (Some(m), Some(t)) = (mux_a, ta) {
             let st = st2.clone();
@@ -234,14 +251,24 @@ async fn run_case(c: &Value) -> Value {
             s.spawn_bg(app(ctx, qb.clone(), 1, hold_b.clone(), i, t0, ev2.clone(), activity.clone()));
         }
         for d in advs {
-            settle(&activity).await;
+            if !settle(&activity).await {
+                capped2.store(1, Ordering::SeqCst);
+                break;
+            }
             clock.advance(d);
             activity.fetch_add(1, Ordering::SeqCst);
         }
-        settle(&activity).await;
+        if !settle(&activity).await {
+            capped2.store(1, Ordering::SeqCst);
+        }
+        // do not rely on the scope noticing that the root task is done
+        s.cancel();
         Ok(())
     })
     .await;
+    if capped.load(Ordering::SeqCst) != 0 {
+        return json!({"hang": true, "livelock": true, "yields": MAX_SETTLE_YIELDS});
+    }
     let evs: Vec<Value> = events
         .lock()
         .unwrap()
@@ -252,17 +279,13 @@ async fn run_case(c: &Value) -> Value {
     json!({"events": evs, "status": st})
 }
 
+#[path = "../limiter_util.rs"]
+mod u;
+
+fn case(c: Value) -> u::CaseFut {
+    Box::pin(async move { run_case(&c).await })
+}
+
 fn main() {
-    quiet_panics();
-    let rt = tokio::runtime::Builder::new_current_thread()
-        .enable_all()
-        .build()
-        .unwrap();
-    for c in read_cases() {
-        let r = catch(std::panic::AssertUnwindSafe(|| rt.block_on(run_case(&c))));
-        match r {
-            Ok(v) => write_line(&v),
-            Err(m) => write_line(&json!({ "panic": m })),
-        }
-    }
+    u::main_loop(case)
 }
